@@ -8,19 +8,19 @@ from props import PROPS
 
 CLAIMS = {
  'C01': dict(text="Coq theorems, for every well-formed header: the units the GENERATED producers (NumPy route, segyio route, reduced-I/O reader) hand to the compressor are, in queue order, exactly the units the specification places at positions 0,1,2,.. of the data section; every cell of the padded cube is the edge-replicated source sample; hence the unit consulted for a real voxel is the ZFP code of the source unit containing it, independent of blockshape/route. VDS / ZGY / SGZ-as-input routes (Props/C01a.v): the extension dispatch of SeismicFile.open and the converter classes as GENERATED, a generated census that the data path (producers, compressor, writer, make_header) never looks at the file type, and cell fidelity for every handle that satisfies the contract iline[ilines[i]] = source inline i, which the pyzgy/pyvds accessor model meets on every axis with non-negative inline numbers (known finding D53 otherwise); both routes are executed (VDS fixture, ZGY fixtures and generated ZGY cubes). Partial: the codec is abstract (structural assumption validated against zfpy), 2D is C09.",
-             note="ZFP structural assumption; np.pad/numpy slicing hand-modelled; queue FIFO order from C16; oracle = bitwise comparison with an independent encoder on every run",
+             note="ZFP structural assumption; np.pad/numpy slicing hand-modelled; queue FIFO order from C16; oracle = bitwise comparison with an independent encoder on every run; the scheduler harness of C16 (pipeline.py: buffer hand-over under explored schedules, queue capacities) also runs under this property",
              technique="Coq proof (mixed-radix enumeration) over a producer model regenerated from source + differential correspondence + independent-encoder oracle"),
  'C02': dict(text="Machine-checked theorems (Coq), for every well-formed header and all in-range arguments, that the read methods as GENERATED from read.py/loader.py return exactly the specification decoder's cells: inline, crossline, z-slice (default layout: Props/C02.v), read_subvolume and read_volume in the default layout (C02a) and in every layout with any padding (C02b), get_trace and trace windows in both layouts, both diagonal readers with all 16 shapes of their cropping arguments, completeness/distinctness of the diagonal enumeration (C02c); by-number / by-coordinate entry points = the ordinal reads at the first-occurrence ordinal, on every axis incl. descending, non-unit and zero increments (C02d); the xarray backend returns numpy's selection of the decoded volume for every basic key (ints, slices with any start/stop/step) and tools.cube = read_volume (C02e). Samples are provenance (unit, cell), the codec is abstract.",
              note="codec abstract (provenance); translator + Lib/Py.v semantics trusted; correspondence model=implementation on every run; specification-only decoder as oracle",
              technique="Coq proof over a model regenerated from source + differential correspondence + specification-decoder oracle"),
  'C03': dict(text="Coq theorems: (version) the encoding GENERATED from version.py is a bijection on all majors and strictly monotone for the release order, gates mean what the specification says; (container, converters) for every valid setting and cube the header fields GENERATED from make_header state the true dimensions/rate/blockshape/trace count, the header is well-formed (one block = 4096 bytes), the stated disk blocks are exactly padded voxels x bits / 8 = unit bytes x the number of units the producers write (C01), and the footer stride both write_headers use equals the stride the GENERATED reader derives for post-0.2.1 files, so array k sits where the reader looks. ZGY route (Props/C03b.v): the header it writes is well-formed and states the true dimensions, the table names exactly the four stored arrays 181/185/189/193 in footer order, the constants 115/117/71, the source and detection codes, and every field of every trace reads back through the reader model. Cropper / re-blocker conformance: C10 / C12. Known finding D19 (version strings without a patch component).",
-             note="string constructor is a hand model pinned to the source text; compositions of writers covered by the container harness (spec-only decoder) and by C10/C12 preserving well-formedness",
+             note="string constructor is a hand model pinned to the source text; compositions of writers covered by the container harness (spec-only decoder) and by C10/C12 preserving well-formedness; the scheduler harness of C16 (pipeline.py) also runs under this property: the footer follows every data block under every explored schedule",
              technique="Coq proof (arithmetic) over generated header fields + correspondence + specification-only decoder oracle on every writer and composition"),
  'C07': dict(text="Coq theorems on the GENERATED read plans, for every well-formed header: exactly which ranges are issued by inline / crossline / z-slice reads (default layout), sub-volumes, traces and trace windows (every layout: C07a, C07b) and that no range repeats within a call; opening touches only header blocks; with preload the data section is requested exactly once in the whole session whatever follows; the range-read choke point issues one request or none; file and blob backends issue the same (offset, length); regenerating a trace header of a regular file requests exactly word t of each stored array once (after the D42 repair; refuted-witness theorem for the unrepaired loop); within one diagonal call no chunk is fetched twice for any LRU capacity >= 1 (C07c); an xarray selection reads exactly what read_subvolume reads on its tight bounding box, nothing for an empty selection (C07d). Observed (offset, length) sequences of a counting file are compared with the model and an independent block oracle on every run.",
              note="I/O traces compared after coalescing adjacent ranges; requests are those seen above read_range; lru_cache semantics hand-modelled; blob backend executed against an in-memory stand-in only",
              technique="Coq proof over generated read plans and file-access census + I/O trace correspondence + block-set oracle"),
  'C14': dict(text="Coq theorems, for EVERY header and argument tuple: an argument outside the real extent makes the generated read method raise IndexError / WrongDim; a line number or sample coordinate that is not ON the axis (between two lines, before the first, after the last) is refused by every by-number / by-coordinate entry point before any loader call, for every axis (C14b, over coord_to_index and the entry points as GENERATED); in-range half is C02",
-             note="guards are generated from read.py on every run",
+             note="guards are generated from read.py on every run; the cropper harness of C10 also runs under this property (a cropped file never declares padding lines or samples as real)",
              technique="Coq proof over generated guards + differential correspondence"),
  'C20': dict(text="Coq theorems, for every shape and blockshape: the concatenation of the byte strings the GENERATED producers pass to hash_object.update equals the serialisation of the source samples in trace order (NumPy, SEG-Y both readers, 2D), so the digest is independent of settings; one differing sample gives a different stream (collision of the abstract H otherwise); the digest is written/read at the generated offsets and the re-blocker's patches do not touch it.",
              note="SHA-1 abstract; hashlib streaming validated per case",
@@ -39,7 +39,7 @@ CLAIMS.update({
 })
 CLAIMS.update({
  'C06': dict(text="Coq theorems over the export as GENERATED from convert_to_segy (spec fields, operation order, index expressions, format-code bytes, header overrides): trace i of the SEG-Y is get_trace(i) for regular, irregular and 2D files (order preserved); header i is the regenerated header with DelayRecordingTime from the first sample; the 3600 header bytes are the stored ones whatever segyio wrote before (overwrite-last lemma); spec axes are the SGZ axes; format code choice; the export neither depends on nor changes the converter object's state (C06a: header arrays reloaded after a padding-mode switch, header bytes restored). Partial: segyio's numerics (IEEE exact / IBM 2^-20) are a validated assumption; known findings D34 (extended textual headers), D35 (delay scaled by trace scalar).",
-             note="segyio is a validated hand model; numeric clause checked on every sample, not proved",
+             note="segyio is a validated hand model; numeric clause checked on every sample, not proved; the scheduler harness of C16 (pipeline.py) also runs under this property (an exported file presupposes a complete converted file)",
              technique="Coq proof over generated export plan + byte-level correspondence + segyio round-trip oracle"),
  'C10': dict(text="Coq theorems for every well-formed source header and every box, over the cropper as GENERATED from cropping.py: exactly the out-of-range / empty / inverted / unsupported requests raise IndexError before the output is opened; a served crop is the request widened to block boundaries and clipped; every padded output voxel has the provenance of the corresponding source voxel (unit bytes copied from the specification position); the regenerated header states the box, is well-formed and describes the bytes that follow; footer entry (i,x) is source entry (i+i0,x+x0) with the stride the reader derives; for a ZGY-sourced file (double interval at 92:100 non-zero) the double start at 84:92 becomes exactly the source's sample coordinate at the crop start and the interval is kept, so the GENERATED reader's sample axis of the cropped file starts there (element k equal to the source's element z0+k over the rationals; bit equality is refuted with a binary64 witness). Known finding D7h (integer start time stored as whole ms).",
              note="decoded floats abstract; numpy reshape/slice indexing and struct.pack ranges hand-modelled",
@@ -65,7 +65,7 @@ CLAIMS.update({
              note="thread timing = arbitrary permutation of atomic slice assignments",
              technique="Coq proof over generated guard, wiring and slot expressions + exhaustive fault-position injection on the real code"),
  'C18': dict(text="Coq theorems for every crash point (any prefix of the GENERATED write order of both converters, with a partial last write) and every robust reader program: a range not wholly inside the partial file raises; bytes no pending write touches are final; so a read raises or returns what the complete file returns; the patched header bytes (count, table, hash) are used only by the three parsers named; thorough-mode table patches torn at row boundaries are refused or final. Known findings D40 (hash before its patch), D41 (table row torn inside a value).",
-             note="crash point = prefix of program-order writes; OS write-back not modelled",
+             note="crash point = prefix of program-order writes; OS write-back not modelled; the fault-injection harness of C17 (faults.py: short / empty / failing answers of the file and blob back ends, bounded and unbounded range requests) also runs under this property",
              technique="Coq proof over generated write order and header-slice users + truncation sweep of real files against the complete file"),
 })
 CLAIMS.update({
